@@ -340,7 +340,7 @@ def c16_runs(tier):
     root = os.path.join(vlib.scratch(), "c16")
     jobs = []
     k = 0
-    opts = ["default", "user", "path_rel", "path_abs", "path_user", "path_rel_user"]
+    opts = ["default", "user", "path_rel", "path_abs", "path_user", "path_rel_user", "path_dotdot"]
     for a in agents:
         for o in opts:
             for pr in C16_PRIORS:
@@ -365,11 +365,19 @@ def c16_runs(tier):
             custom = "custom/rel"
         elif o in ("path_abs", "path_user"):
             custom = os.path.join(other, "abs")
+        if o == "path_dotdot":
+            # a relative path that climbs out of a symlinked directory: the operating system applies ".." AFTER following
+            # the link, so lnk/../viaparent is a sibling of the link's target, not of the link
+            os.makedirs(os.path.join(other, "deep", "dir"))
+            os.symlink(os.path.join(other, "deep", "dir"), os.path.join(cwd, "lnk"))
+            custom = "lnk/../viaparent"
         if custom:
             args += ["--path", custom]
         if user:
             args += ["--user"]
-        if custom:
+        if o == "path_dotdot":
+            base = os.path.join(other, "deep", "viaparent")
+        elif custom:
             base = custom if custom.startswith("/") else os.path.join(cwd, custom)
         elif user:
             base = os.path.join(home, a["user"])
@@ -414,7 +422,15 @@ def c16_runs(tier):
         rc, out, err = vlib.run(["sh", "-c", 'umask %s; exec "$@"' % um, "sh", kessoku, "llm-setup"] + args, cwd=cwd, env=env, timeout=60)
         after = snapshot(work)
         m = re.search(r"Skills installed to: (.*)", out)
-        rec = dict(k=k, agent=a["name"], opt=o, prior=pr, umask=um, rc=rc, stdout=out[-300:], stderr=err[-300:], reported=m.group(1).strip() if m else None,
+        # the symbolic links of the scratch tree, so that a path can be resolved the way the operating system does after the
+        # tree is gone (the model names the documented directory, the CLI may report its physical path)
+        links = {}
+        for dp, dns, fns in os.walk(work):
+            for n in dns + fns:
+                q = os.path.join(dp, n)
+                if os.path.islink(q):
+                    links[q] = os.readlink(q)
+        rec = dict(links=links, k=k, agent=a["name"], opt=o, prior=pr, umask=um, rc=rc, stdout=out[-300:], stderr=err[-300:], reported=m.group(1).strip() if m else None,
                    expected_dir=os.path.relpath(physical, work), expected_reported=os.path.relpath(skill, work), work=work, custom=custom, user=user, home=home, cwd=cwd, before=before, after=after)
         shutil.rmtree(work, ignore_errors=True)
         return rec
@@ -445,7 +461,8 @@ def c16_oracle(tree, rec):
         if after.get(p) != v:
             probs.append("%s is %s, expected a regular file with the embedded content and mode 0644" % (p, after.get(p)))
     exp_rep = rec.get("expected_reported", exp)
-    if rec["reported"] is None or os.path.relpath(rec["reported"], rec["work"]) != exp_rep:
+    # (the directory may be named through a symbolic link or by its physical path: both denote the documented location)
+    if rec["reported"] is None or os.path.relpath(rec["reported"], rec["work"]) not in (exp_rep, exp):
         probs.append("reported installation directory %s, documented location is %s" % (rec["reported"], exp_rep))
     # nothing else created or modified, apart from missing parent directories of the skill directory
     for p in set(before) | set(after):
@@ -460,3 +477,22 @@ def c16_oracle(tree, rec):
             continue                      # sub-directory of the tree
         probs.append("path outside the installed tree created or modified: %s: %s -> %s" % (p, b, a))
     return probs
+
+
+def resolve_path(path, links, depth=0):
+    """path as the operating system resolves it, given the symbolic links {absolute link path: target} (.. after links)"""
+    if depth > 20:
+        return path
+    cur = "/"
+    for c in path.split("/"):
+        if c in ("", "."):
+            continue
+        if c == "..":
+            cur = os.path.dirname(cur)
+            continue
+        nxt = os.path.join(cur, c)
+        if nxt in links:
+            t = links[nxt]
+            nxt = resolve_path(t if t.startswith("/") else os.path.join(cur, t), links, depth + 1)
+        cur = nxt
+    return cur
